@@ -79,6 +79,8 @@ struct Harness
     static constexpr bool STATEFUL = !Tr::ALWAYS_EQUAL;
     static constexpr std::array<bool, N> F_COPYCOUNTED{IsCopyCounted<typename PI<P>::T>::value...};
     static constexpr bool ANY_COPYCOUNTED = (IsCopyCounted<typename PI<P>::T>::value || ...);
+    static constexpr std::array<bool, N> F_STICKY{IsSticky<typename PI<P>::T>::value...};
+    static constexpr bool ANY_STICKY = (IsSticky<typename PI<P>::T>::value || ...);
     static constexpr bool VALUES_CAN_THROW = (CanThrowOnCopy<typename PI<P>::T>::value || ...);
 
     static constexpr bool is_count(std::size_t i) { return i + 1 < N && KIND[i + 1] == K_VARYING; }
